@@ -55,7 +55,14 @@ class LineTracer:
         #: of such a function the scheduler is asked to hand over to that thread; the draw is part of the choice trace
         self.targets = targets or {}
         self.target_n = 0
-        self._stalled = set()
+        self._first_lines = {}
+
+    def _first_body_line(self, code):
+        ln = self._first_lines.get(code)
+        if ln is None:
+            later = [l_ for (_a, _b, l_) in code.co_lines() if l_ is not None and l_ > code.co_firstlineno]
+            ln = self._first_lines[code] = min(later) if later else code.co_firstlineno
+        return ln
 
     def install(self):
         sys.settrace(self.global_trace)
@@ -83,19 +90,18 @@ class LineTracer:
                     raise self.crash_exc("injected at %s:%s:%d" % self.crashed_at)
             if self.targets:
                 tg = self.targets.get(frame.f_code.co_name)
-                if tg is not None and (len(tg) < 4 or not callable(tg[3]) or tg[3]()):
+                # tg = (thread to hand over to | "@stall", probability, "once" | (min ns, max ns), "any" | "", predicate)
+                if tg is not None and (len(tg) < 5 or tg[4]()):
                     self.target_n += 1
                     if tg[0] == "@stall":
                         # a targeted slow-down: the thread that runs this function stands still for a while (a loaded
-                        # host) - once per call of the function, at its first line
-                        # once per call of the function: at its first line, or ("any") at a line drawn as it goes
-                        if id(frame) not in self._stalled:
-                            if len(tg) < 4 or tg[3] != "any":
-                                self._stalled.add(id(frame))
+                        # host) - at the function's first line, or ("any") at whichever line the draw picks.  (No
+                        # bookkeeping by id(frame): addresses are reused differently from process to process.)
+                        any_line = len(tg) > 3 and tg[3] == "any"
+                        if any_line or frame.f_lineno == self._first_body_line(frame.f_code):
                             ns = self.k.ch.draw("target", self.target_n, 0, lambda r: (
                                 r.randrange(tg[2][0], tg[2][1]) if r.random() < tg[1] else 0))
                             if ns:
-                                self._stalled.add(id(frame))
                                 self.k.fault("stall")
                                 self.k.probe("targeted_stall")
                                 self.k.block_until(None, self.k.now_ns + ns, why="stall")
